@@ -1359,7 +1359,9 @@ def stats(case, hs):
                 if last is not None and e[3] != last:
                     sw += 1
                 last = e[3]
-    return {"executions": 1, "statements": sum(len(c) for c in case["clients"]), "ops": ops, "clients": len(case["clients"]),
+    cn = h.get("counters", {}) if isinstance(h, dict) else {}
+    return {"executions": 1, "instr": cn.get("instr", 0), "sim_time_s": max(0.0, (cn.get("clock_end_ns", 1600000000 * 10**9) - 1600000000 * 10**9) / 1e9),
+            "statements": sum(len(c) for c in case["clients"]), "ops": ops, "clients": len(case["clients"]),
             "client_switches_between_operations": sw, "laws": len(case.get("laws") or []), "checks": case.get("_checks", 0),
             "exact_judging_stopped": 1 if case.get("_fuzzy") else 0}
 
